@@ -221,7 +221,9 @@ def rule_gsd(ctx, tu):
             cp = call_parts(strip(s_.rhs, casts=True))
             if cp and cp[0] == "floor" and cxfe.subscript(s_.target) is not None and s_.op == "=":
                 floors.append((s_, cp[2][0]))
-    tot = [x for x in floors if cxa.canon(x[0].target).split("[")[0].startswith("tot_species")]
+    from .. import gsd
+    role = gsd.roles(f)              # locals identified by what they are computed from, not by name
+    tot = [x for x in floors if role.get(cxa.canon(x[0].target).split("[")[0].split("'")[0]) == "tot_species"]
     ctx.need(len(tot) == 1, R, "GenerateStochasticDistribution: flooring of the species totals not found")
     s_, arg = tot[0]
     got = c02.expr_rat(arg, {})
@@ -229,7 +231,7 @@ def rule_gsd(ctx, tu):
               "the target total is floor(%r), not the floor of the real-valued total: fractional totals are rounded up"
               % (got,))
     # the totals are sums over all cells of the entries of that species
-    sums = [x for x in cxa.all_stores(f.body) if x.op == "+=" and x.base and x.base[1].startswith("tot")]
+    sums = [x for x in cxa.all_stores(f.body) if x.op == "+=" and x.base and role.get(x.base[1]) in ("tot_species", "tot2_species")]
     ctx.check(len(sums) == 2, R, f.node, f.qual, "totals accumulated by += over cells (real state, drawn state)", "", "")
     R = "C14.NONNEG"
     recs = []
@@ -376,7 +378,7 @@ def rule_gsd(ctx, tu):
     tg = [x for x in walk(f.body) if x.get("kind") == "VarDecl" and (x.get("name") or "").startswith("target") and kids(x)]
     for x in tg:
         srcs = {name_of(strip(subscript(y)[0], casts=True)) for y in walk(kids(x)[-1]) if subscript(y) is not None}
-        ctx.check(srcs == {"tot_species"}, R, x, f.qual, text(x)[:70], "target = u x floored real total", "the target is scaled by "
+        ctx.check({role.get(s_, s_) for s_ in srcs} == {"tot_species"}, R, x, f.qual, text(x)[:70], "target = u x floored real total", "the target is scaled by "
                   "%s, not by the floored real-valued total" % sorted(s_ for s_ in srcs if s_))
     cfacts_ = [strip_facts(fc) for _, fc in cnt]
     for s2, fc in unit:
@@ -387,10 +389,14 @@ def rule_gsd(ctx, tu):
     # only under `difference != 0` and the direction of the correction.  A further skip on the species' amounts (`total < 1`,
     # ...) leaves a drawn total that is not floor(real total)
     import re as _re
-    # (the difference may be tested on the local or on the table it was read from)
-    OWNV = r"(delta\w*|dtot\w*|\w*diff\w*|rm_\w+|mesh_x_sto|target\w*|cumul\w*|\w*count\w*)"
+    # (the difference may be tested on the local or on the table it was read from).  Name-independent: a condition is foreign when
+    # it reads the amounts themselves -- the input state, the real or the drawn totals (identified by what they are computed from)
+    # -- or another parameter; locals (difference, direction, target, running sum, counter) and the drawn state are the
+    # correction's own
+    foreign = {state_in} | {k_ for k_, v_ in role.items() if v_ in ("tot_species", "tot2_species")} | \
+        {p_ for p_ in f.param_names()[1:] if not p_.startswith("n_")}
     for s2, ch in unit:
-        extra = [t for t, b in ch if not _re.search(r"\b%s\b" % OWNV, t)]
+        extra = [t for t, b in ch if set(_re.findall(r"[A-Za-z_][A-Za-z_0-9]*", t)) & foreign]
         ctx.check(not extra, R, s2.node, f.qual, text(s2.node)[:50] + " reached for every species with a difference",
                   "conditions on the difference, the direction and the selection only", "the correction of a species is skipped "
                   "under `%s`: its drawn total stays what the independent draws gave, not floor(real total)" %
